@@ -376,6 +376,7 @@ def parseHOp (s : String) : Option HOp :=
   | ["s", i] => do pure (.smfAdd (← i.toNat?))
   | _ => none
 
+--@driver smf. Smf.handle
 def handle (op : String) (args : List String) : String :=
   match op with
   | "smf.read" => match args with
